@@ -106,6 +106,11 @@ func capSplits(p *Plan) *Plan {
 func BuildCluster(l Layout) *hb.Cluster {
 	c := hb.NewCluster(l.Servers)
 	c.Meta, c.MetaZK, c.Master = l.Meta%l.Servers, l.Meta%l.Servers, l.Master%l.Servers
+	if l.HostCase {
+		for _, s := range c.Servers {
+			s.Addr = fmt.Sprintf("RS%d.Example.COM:16020", s.Idx)
+		}
+	}
 	for _, t := range l.Tables {
 		c.CreateTable(t.Name, t.Splits, t.First, t.IDs)
 		for _, r := range t.Rows {
